@@ -126,6 +126,12 @@ func pushdownAllowed(opts *Opts, query *sql.Query) (bool, error) {
 				log.Debugf("Unexpected error checking if pushdown allowed: %v", err)
 				return false, err
 			}
+			if !partitionKeysKept(t) {
+				// The table's own GROUP BY drops a dimension that decides the partition of a
+				// point, so the rows of one stored key are spread over the partitions
+				log.Debug("Pushdown not allowed because the table's GROUP BY does not keep all partition keys")
+				return false, nil
+			}
 			if current.GroupByAll && parentGroupByAll {
 				log.Debug("Pushdown allowed because we're grouping by all")
 			} else {
@@ -188,6 +194,37 @@ func hasInSubQuery(query *sql.Query) bool {
 		})
 	}
 	return found
+}
+
+// partitionKeysKept reports whether the partition of a point is determined by the row key that
+// the table stores: either the table keeps all dimensions (GROUP BY *), or every partition
+// key is one of its GROUP BY dimensions. Otherwise points of one stored key live on several
+// partitions and per-partition results have to be re-grouped on the leader.
+func partitionKeysKept(t Table) bool {
+	groupBy := t.GetGroupBy()
+	if len(groupBy) == 0 {
+		return true
+	}
+	partitionBy := t.GetPartitionBy()
+	if len(partitionBy) == 0 {
+		// partitioned by all dimensions, but only some are kept
+		return false
+	}
+	kept := make(map[string]bool, len(groupBy))
+	for _, gb := range groupBy {
+		name := gb.Name
+		gb.Expr.WalkOneToOneParams(func(param string) {
+			if param == name {
+				kept[param] = true
+			}
+		})
+	}
+	for _, partitionKey := range partitionBy {
+		if !kept[partitionKey] {
+			return false
+		}
+	}
+	return true
 }
 
 func planClusterPushdown(opts *Opts, query *sql.Query) (core.FlatRowSource, error) {
